@@ -147,7 +147,7 @@ def install(reg):
     reg.add(Contract(
         "biobalm.trappist_core.compute_fixed_point_reduced_STG",
         params=[("petri_net", M.TPN), ("retained_set", TSpace), ("ensure_subspace", TSpace), ("avoid_subspaces", LS), ("solution_limit", OptInt)],
-        defaults={"solution_limit": None},   # the mutable default arguments {} / [] are handled below
+        defaults={"solution_limit": None, "retained_set": TSpace.empty(), "ensure_subspace": TSpace.empty(), "avoid_subspaces": LS.empty()},
         result_type=LS, properties=("C09", "C08", "C01"),
         may_raise={"RuntimeError": {}}, raises={"RuntimeError": []},
         axioms=AX_AVOID,
